@@ -87,6 +87,11 @@ def check_scripts(env, rep, prop, scripts, oracle, nontrivial=None):
                          what="message layer trace")
             continue
         rep.traces += 1
+        if "~n/a" in i:
+            # private tables not readable (refactored): compare the observable trace only
+            rep.count("state-probe-unavailable")
+            strip = lambda l: "|".join(g.split("~")[0] for g in l.split("|"))
+            cm, i = strip(cm), strip(i)
         if cm != i:
             rep.disagree({"case": case, "line": line}, cm[:3000], i[:3000], what="message layer trace")
 
